@@ -23,6 +23,11 @@ func mk(kind, name string, idx int, typ types.Type, args ...*Term) *Term {
 	sb.WriteString(kind)
 	sb.WriteByte(':')
 	sb.WriteString(name)
+	if (kind == "param" || kind == "freevar") && typ != nil {
+		// parameters of different functions may share a name: keep them apart by type
+		sb.WriteByte('~')
+		sb.WriteString(types.TypeString(typ, nil))
+	}
 	if idx != 0 {
 		fmt.Fprintf(&sb, "#%d", idx)
 	}
@@ -42,6 +47,9 @@ func mk(kind, name string, idx int, typ types.Type, args ...*Term) *Term {
 	}
 	k := sb.String()
 	if t, ok := interned[k]; ok {
+		if t.Typ == nil && typ != nil {
+			t.Typ = typ // a rule may have built the term before the engine saw its type
+		}
 		return t
 	}
 	t := &Term{Kind: kind, Name: name, Args: args, Idx: idx, Typ: typ, key: k}
